@@ -115,6 +115,10 @@ func (this *Node) iterate(iterator NodeIterator) {
 func (this *Node) walk(topic format.Topic, iterator NodeIterator) {
 	if topic == nil {
 		iterator(this.Data)
+		// "a/#" also matches its parent level "a"
+		if n, ok := this.Children[MWC]; ok {
+			iterator(n.Data)
+		}
 		return
 	}
 	topic, token := topic.Next()
